@@ -39,6 +39,19 @@ func (q queryServer) AllPublishedData(goCtx context.Context, req *types.QueryAll
 	return &types.QueryAllPublishedDataResponse{Data: data}, nil
 }
 
+// validateShardCount bounds the shard count of a query by the max_shard_count parameter: the threshold and shard
+// index computations convert it to int64 and allocate shard_count integers.
+func (q queryServer) validateShardCount(ctx sdk.Context, shardCount uint64) error {
+	params, err := q.k.Params.Get(ctx)
+	if err != nil {
+		return status.Error(codes.Internal, err.Error())
+	}
+	if shardCount > params.MaxShardCount {
+		return status.Error(codes.InvalidArgument, "shard count exceeds max_shard_count")
+	}
+	return nil
+}
+
 func (q queryServer) ValidatorShardIndices(goCtx context.Context, req *types.QueryValidatorShardIndicesRequest) (*types.QueryValidatorShardIndicesResponse, error) {
 	if req == nil {
 		return nil, status.Error(codes.InvalidArgument, "invalid request")
@@ -48,6 +61,9 @@ func (q queryServer) ValidatorShardIndices(goCtx context.Context, req *types.Que
 	validator, err := q.k.validatorAddressCodec.StringToBytes(req.ValidatorAddress)
 	if err != nil {
 		return nil, errorsmod.Wrap(err, "invalid validator address")
+	}
+	if err := q.validateShardCount(ctx, req.ShardCount); err != nil {
+		return nil, err
 	}
 	threshold, err := q.k.GetZkpThreshold(ctx, req.ShardCount)
 	if err != nil {
@@ -67,6 +83,9 @@ func (q queryServer) ZkpProofThreshold(goCtx context.Context, req *types.QueryZk
 	}
 	ctx := sdk.UnwrapSDKContext(goCtx)
 
+	if err := q.validateShardCount(ctx, req.ShardCount); err != nil {
+		return nil, err
+	}
 	threshold, err := q.k.GetZkpThreshold(ctx, req.ShardCount)
 	if err != nil {
 		return nil, status.Error(codes.Internal, err.Error())
